@@ -346,7 +346,7 @@ def _run_one(args):
         problems = A.problems()
         kn = {k["key"] for k in load_known().get("known", []) if k.get("property") == prop}
         found = sorted({f.rule for r in rules for f in r.findings if f.key not in kn})
-        floors = [r.rid for r in rules if len(r.instances) < r.floor]
+        floors = [r.rid for r in rules if len(r.instances) < (max(1, (r.floor + 2) // 3) if r.floor else 0)]
         return (idx, found, problems[:2], floors, None)
     except AnalysisError as e:
         return (idx, [], [], [], f"analysis error: {e}")
